@@ -160,3 +160,87 @@ func VH_c15_events() { vhC15(false) }
 
 // with one pre-emption (at the go statements and lock acquisitions of Publish)
 func VH_c15_window() { vhC15(true) }
+
+func init() {
+	verifrt.Register("VH_c15_concurrent", VH_c15_concurrent)
+}
+
+// C15 (schedules): two goroutines change the handler list at the same time - both subscribe the same
+// handler, or one subscribes while the other unsubscribes another handler, or both unsubscribe. In every
+// interleaving within the pre-emption bound the list keeps set semantics and a subsequent event reaches
+// every subscribed handler exactly once.
+func VH_c15_concurrent() {
+	scen := []string{"subscribe-same || subscribe-same", "subscribe || subscribe-other", "subscribe || unsubscribe-other", "unsubscribe-same || unsubscribe-same", "subscribe-same || publish"}
+	si := verifrt.ShardChoice("case", len(scen)*2)
+	lv := []api.EventHandlerLevel{api.EventHandlerLevelCore, api.EventHandlerLevelApplication}[si%2]
+	si /= 2
+	verifrt.Scenario(scen[si])
+	bus := &events{}
+	var log []string
+	hs := make([]*vhHandler, 3)
+	for i := range hs {
+		hs[i] = &vhHandler{id: i, log: &log, bus: bus, level: lv}
+	}
+	// handler 1 is subscribed already; handler 0 too in the unsubscribe scenario
+	_ = bus.subscribe(lv, hs[1])
+	if si == 3 {
+		_ = bus.subscribe(lv, hs[0])
+	}
+	var op0, op1 func()
+	switch si {
+	case 0:
+		op0 = func() { _ = bus.subscribe(lv, hs[0]) }
+		op1 = func() { _ = bus.subscribe(lv, hs[0]) }
+	case 1:
+		op0 = func() { _ = bus.subscribe(lv, hs[0]) }
+		op1 = func() { _ = bus.subscribe(lv, hs[2]) }
+	case 2:
+		op0 = func() { _ = bus.subscribe(lv, hs[0]) }
+		op1 = func() { _ = bus.unsubscribe(lv, hs[1]) }
+	case 3:
+		op0 = func() { _ = bus.unsubscribe(lv, hs[0]) }
+		op1 = func() { _ = bus.unsubscribe(lv, hs[0]) }
+	case 4:
+		op0 = func() { _ = bus.subscribe(lv, hs[0]) }
+		op1 = func() { bus.Publish(api.EventPayload{Ski: "early"}) }
+	}
+	verifrt.Go(op0)
+	verifrt.Go(op1)
+	verifrt.PreemptAtUnlock(true)
+	verifrt.PreemptOn()
+	verifrt.WaitIdle()
+	verifrt.PreemptOff()
+	verifrt.PreemptAtUnlock(false)
+	verifrt.Reach("both-done")
+	verifrt.Assert("no-thread-left-blocked", verifrt.BlockedThreads() == 0)
+	want := [][]int{{1, 1, 0}, {1, 1, 1}, {1, 0, 0}, {0, 1, 0}, {1, 1, 0}}[si]
+	count := func(i int) int {
+		n := 0
+		for _, it := range bus.handlers {
+			if it.Handler == api.EventHandlerInterface(hs[i]) && it.Level == lv {
+				n++
+			}
+		}
+		return n
+	}
+	set := true
+	for i := range hs {
+		set = set && count(i) == want[i]
+	}
+	verifrt.Assert("handler-list-has-set-semantics", set)
+	log = nil
+	bus.Publish(api.EventPayload{Ski: "first"})
+	verifrt.WaitIdle()
+	once := true
+	for i := range hs {
+		n := 0
+		for _, e := range log {
+			if e == fmt.Sprintf("h%d:first", i) {
+				n++
+			}
+		}
+		once = once && n == want[i]
+	}
+	verifrt.Assert("every-subscribed-handler-gets-the-event-exactly-once", once)
+	verifrt.Observe("handlers", len(bus.handlers))
+}
